@@ -18,7 +18,7 @@ TEXT = {
   "technique": "Lean 4 theorems over a labelled transition system (induction over schedules, counting invariant, decreasing measure) + translator (protocol skeleton) + schedule-perturbing runtime exploration",
  },
  "C01": {
-  "text": "PARTIAL. Proved: Dhuhr is reported under all 15 policies (every scalar type); get_hour_angle is the stated angle reduced into (-180,180] and the transit fraction is reduced into [0,1) (R); the one-step correction leaves residual H*kappa with kappa=(D1/2+D2(m+m')/2-0.985647)/360, an exact identity, below 0.063 s under an explicit envelope (R); the RA-wrap handling yields the deltas of the unwrapped sequence (R; fails to check when the source sets prev_ra=0); JulianDay::new = civil day number + 1721424.5 - gmt/24 for every Gregorian date (R); tables and sidereal constants equal the frozen Meeus snapshot. Not proved: agreement of the truncated VSOP87 theory with the sky within 10 s - decided by the falsifier against an independent ephemeris on every run.",
+  "text": "PARTIAL. Proved: Dhuhr is reported under all 15 policies (every scalar type); get_hour_angle is the stated angle reduced into (-180,180] and the transit fraction is reduced into [0,1) (R); the one-step correction leaves residual H*kappa with kappa=(D1/2+D2(m+m')/2-0.985647)/360, an exact identity, below 0.063 s under an explicit envelope (R; end to end on the model's Dhuhr: dhuhr_hour_angle_small); the RA-wrap handling yields the deltas of the unwrapped sequence (R; fails to check when the source sets prev_ra=0); JulianDay::new = civil day number + 1721424.5 - gmt/24 for every Gregorian date (R); tables and sidereal constants equal the frozen Meeus snapshot. Not proved: agreement of the truncated VSOP87 theory with the sky within 10 s - decided by the falsifier against an independent ephemeris on every run.",
   "design_ref": "DESIGN.md §3.3, §7 C01",
   "note": "The 10-second clause is a statement about the physical sky; it is explored (independent ephemeris), not proved. Envelope hypotheses of residual_bound are not proved: the falsifier evaluates them on every case from the implementation's ephemeris and fails a case outside them; extremes seen are in the evidence.",
   "technique": "Lean 4 + Mathlib theorems over R and generic theorems + translator (tables/constants/wrap statements) + bit-level correspondence + independent-ephemeris falsifier",
